@@ -18,13 +18,39 @@ structure FreshTx (T : List Tx) (tx : Tx) : Prop where
   nodup : (allNodes T ++ tx.nodes).Nodup
   nozero : 0 ∉ tx.nodes
 
+/-- edges / properties of the runs the log replays, after one more data transaction -/
+theorem logRuns_snoc_edges (ckpt : Nat) (cs : List CTx) (t base : Nat) (tx : Tx) (hnle : ¬ t ≤ ckpt) :
+    (logRuns ckpt (cs ++ [⟨t, body base tx⟩])).flatMap (·.edges) = (logRuns ckpt cs).flatMap (·.edges) ++ tx.edges := by
+  rw [logRuns_append, List.flatMap_append]
+  congr 1
+  by_cases hr : ((runOf ⟨t, body base tx⟩).edges.isEmpty && (runOf ⟨t, body base tx⟩).props.isEmpty) = true
+  · have : tx.edges = [] := by
+      simp [runOf, edgesOf_body] at hr
+      exact hr.1
+    simp [logRuns, hnle, hr, this]
+  · have hl : logRuns ckpt [⟨t, body base tx⟩] = [runOf ⟨t, body base tx⟩] := by simp [logRuns, hnle, hr]
+    rw [hl]; simp [runOf, edgesOf_body]
+
+theorem logRuns_snoc_props (ckpt : Nat) (cs : List CTx) (t base : Nat) (tx : Tx) (hnle : ¬ t ≤ ckpt) :
+    (logRuns ckpt (cs ++ [⟨t, body base tx⟩])).flatMap (·.props) = (logRuns ckpt cs).flatMap (·.props) ++ tx.props := by
+  rw [logRuns_append, List.flatMap_append]
+  congr 1
+  by_cases hr : ((runOf ⟨t, body base tx⟩).edges.isEmpty && (runOf ⟨t, body base tx⟩).props.isEmpty) = true
+  · have : tx.props = [] := by
+      simp [runOf, propsOf_body] at hr
+      exact hr.2
+    simp [logRuns, hnle, hr, this]
+  · have hl : logRuns ckpt [⟨t, body base tx⟩] = [runOf ⟨t, body base tx⟩] := by simp [logRuns, hnle, hr]
+    rw [hl]; simp [runOf, propsOf_body]
+
 theorem logOK_snoc {T : List Tx} {cs : List CTx} {c : Nat} (h : LogOK T cs c) (t : Nat) (tx : Tx)
-    (ht : (scan cs).ckpt < t) (hf : FreshTx T tx) :
+    (ht : (scan cs).maxTxid < t) (hf : FreshTx T tx) :
     LogOK (T ++ [tx]) (cs ++ [⟨t, body (allNodes T).length tx⟩]) c := by
   have hsc := scan_snoc_body cs t (allNodes T).length tx
   have hck : (scan (cs ++ [⟨t, body (allNodes T).length tx⟩])).ckpt = (scan cs).ckpt := by rw [hsc]
-  have hnle : ¬ t ≤ (scan cs).ckpt := by omega
-  refine ⟨?_, ?_, ?_, ?_, ?_, ?_, ?_, ?_, ?_⟩
+  have hmx : (scan (cs ++ [⟨t, body (allNodes T).length tx⟩])).maxTxid = max (scan cs).maxTxid t := by rw [hsc]
+  have hnle : ¬ t ≤ (scan cs).ckpt := by have := h.ckptle; omega
+  refine ⟨?_, ?_, ?_, ?_, ?_, ?_, ?_⟩
   · rw [allNodes_snoc]; exact hf.nodup
   · rw [allNodes_snoc]; simp [h.nozero, hf.nozero]
   · rw [allNodes_snoc]; simp; have := h.cle; omega
@@ -43,33 +69,60 @@ theorem logOK_snoc {T : List Tx} {cs : List CTx} {c : Nat} (h : LogOK T cs c) (t
     have hc : c + ((allNodes T).length - c) = (allNodes T).length + 0 := by have := h.cle; omega
     rw [hc, seqFrom_tail _ _ _ 0 (by simp)]
     simp
+  · rw [hck, hmx]; exact Nat.le_trans h.ckptle (Nat.le_max_left _ _)
+  · unfold TxMono
+    rw [List.pairwise_append]
+    refine ⟨h.mono, by simp, ?_⟩
+    intro a ha b hb
+    simp only [List.mem_singleton] at hb
+    subst hb
+    have := h.maxle a ha
+    show a.txid < t
+    omega
+  · intro x hx
+    rw [hmx]
+    rcases List.mem_append.mp hx with hx | hx
+    · have := h.maxle x hx; omega
+    · simp only [List.mem_singleton] at hx
+      subst hx
+      show t ≤ _
+      omega
+
+theorem TreeOK.mono {a a' cov : List Nat} {t : TreeImg} (h : TreeOK a cov t) (ha : ∀ q ∈ a, q ∈ a') : TreeOK a' cov t := by
+  obtain ⟨xs, pid, h1, h2, h3, h4⟩ := h.shape
+  exact ⟨⟨xs, pid, h1, h2, fun q hq => ha q (h3 q hq), h4⟩, h.noinode⟩
+
+theorem storeOK_snoc {T : List Tx} {cs : List CTx} {p : PImg} (h : StoreOK T cs p) (t base : Nat) (tx : Tx)
+    (ht : (scan cs).ckpt < t) : StoreOK (T ++ [tx]) (cs ++ [⟨t, body base tx⟩]) p := by
+  have hsc := scan_snoc_body cs t base tx
+  have hnle : ¬ t ≤ (scan cs).ckpt := by omega
+  have e1 : (scan (cs ++ [⟨t, body base tx⟩])).segs = (scan cs).segs := by rw [hsc]
+  have e2 : (scan (cs ++ [⟨t, body base tx⟩])).ckpt = (scan cs).ckpt := by rw [hsc]
+  have e3 : (scan (cs ++ [⟨t, body base tx⟩])).proot = (scan cs).proot := by rw [hsc]
+  have e4 : (scan (cs ++ [⟨t, body base tx⟩])).ptop = (scan cs).ptop := by rw [hsc]
+  refine ⟨by rw [e1]; exact h.segs, h.segKeys, h.treeKeys, ?_, ?_, by rw [e4]; exact h.ptop, ?_⟩
   · intro e
-    rw [hck, logRuns_append, List.flatMap_append, List.mem_append, h.edges, allEdges_snoc, List.mem_append]
-    apply or_congr_right
-    by_cases hr : ((runOf ⟨t, body (allNodes T).length tx⟩).edges.isEmpty && (runOf ⟨t, body (allNodes T).length tx⟩).props.isEmpty) = true
-    · have : tx.edges = [] := by
-        simp [runOf, edgesOf_body] at hr
-        exact hr.1
-      simp [logRuns, hnle, hr, this]
-    · have hl : logRuns (scan cs).ckpt [⟨t, body (allNodes T).length tx⟩] = [runOf ⟨t, body (allNodes T).length tx⟩] := by
-        simp [logRuns, hnle, hr]
-      rw [hl]
-      simp [runOf, edgesOf_body]
-  · intro q
-    rw [hck, logRuns_append, List.flatMap_append, List.mem_append, h.props, allProps_snoc, List.mem_append]
-    apply or_congr_right
-    by_cases hr : ((runOf ⟨t, body (allNodes T).length tx⟩).edges.isEmpty && (runOf ⟨t, body (allNodes T).length tx⟩).props.isEmpty) = true
-    · have : tx.props = [] := by
-        simp [runOf, propsOf_body] at hr
-        exact hr.2
-      simp [logRuns, hnle, hr, this]
-    · have hl : logRuns (scan cs).ckpt [⟨t, body (allNodes T).length tx⟩] = [runOf ⟨t, body (allNodes T).length tx⟩] := by
-        simp [logRuns, hnle, hr]
-      rw [hl]
-      simp [runOf, propsOf_body]
-  · rw [hsc]; exact h.nosegs
-  · rw [hsc]; exact h.noroot
-  · rw [hsc]; exact Nat.le_trans h.ckptle (Nat.le_max_left _ _)
+    rw [e1, e2, logRuns_snoc_edges _ _ _ _ _ hnle, allEdges_snoc, ← List.append_assoc, List.mem_append, h.edges e, List.mem_append]
+  · intro q hq
+    rw [e2, logRuns_snoc_props _ _ _ _ _ hnle] at hq
+    rw [allProps_snoc]
+    rcases List.mem_append.mp hq with hq | hq
+    · exact List.mem_append_left _ (h.runProps q hq)
+    · exact List.mem_append_right _ hq
+  · obtain ⟨cov, h1, h2, h3⟩ := h.props
+    refine ⟨cov, ?_, by rw [e3]; exact h2, ?_⟩
+    · intro q hq
+      rw [e2, logRuns_snoc_props _ _ _ _ _ hnle]
+      rw [allProps_snoc] at hq
+      rcases List.mem_append.mp hq with hq | hq
+      · rcases h1 q hq with h' | h'
+        · exact Or.inl (List.mem_append_left _ h')
+        · exact Or.inr h'
+      · exact Or.inl (List.mem_append_right _ hq)
+    · rw [e3]
+      intro hne
+      obtain ⟨tr, hf, hto⟩ := h3 hne
+      exact ⟨tr, hf, hto.mono (fun q hq => by rw [allProps_snoc]; exact List.mem_append_left _ hq)⟩
 
 theorem pagerOK_extend {N M : List Nat} {c : Nat} {p : PImg} (h : PagerOK N c p) : PagerOK (N ++ M) c p where
   booted := h.booted
@@ -83,7 +136,8 @@ theorem pagerOK_extend {N M : List Nat} {c : Nat} {p : PImg} (h : PagerOK N c p)
     `T ++ [tx]`. -/
 theorem rep_log_prefix {T : List Tx} {cs : List CTx} {c : Nat} {p : PImg} {wf0 : List Frag}
     (hclean : validLen wf0 = wf0.length) (hcom : committed (readAll wf0) = .ok cs) (hlog : LogOK T cs c)
-    (hp : PagerOK (allNodes T) c p) (t : Nat) (tx : Tx) (ht : (scan cs).ckpt < t) (hf : FreshTx T tx) (j : Nat) :
+    (hp : PagerOK (allNodes T) c p) (hst : StoreOK T cs p) (t : Nat) (tx : Tx) (ht : (scan cs).maxTxid < t)
+    (hf : FreshTx T tx) (j : Nat) :
     let recs := txRecs t (allNodes T).length tx
     (j < 3 * recs.length → Rep T p (wf0 ++ (frames recs).take j)) ∧
     (3 * recs.length ≤ j → Rep (T ++ [tx]) p (wf0 ++ (frames recs).take j)) := by
@@ -92,11 +146,12 @@ theorem rep_log_prefix {T : List Tx} {cs : List CTx} {c : Nat} {p : PImg} {wf0 :
   have hrl : recs.length = (body (allNodes T).length tx).length + 2 := by simp [recs, txRecs_eq]
   constructor
   · intro hj
-    refine ⟨cs, c, ?_, hlog, hp⟩
+    refine ⟨cs, c, ?_, hlog, hp, hst⟩
     rw [hwf, readAll_append_take]
     exact committed_partial hcom t _ tx (j / 3) (by omega)
   · intro hj
-    refine ⟨cs ++ [⟨t, body (allNodes T).length tx⟩], c, ?_, logOK_snoc hlog t tx ht hf, ?_⟩
+    refine ⟨cs ++ [⟨t, body (allNodes T).length tx⟩], c, ?_, logOK_snoc hlog t tx ht hf, ?_,
+      storeOK_snoc hst t _ tx (by have := hlog.ckptle; omega)⟩
     · rw [List.take_of_length_le (by rw [frames_length]; omega), hwf, readAll_frames_append, readAll_frames]
       exact committed_full hcom t _ tx
     · rw [allNodes_snoc]; exact pagerOK_extend hp
@@ -114,37 +169,58 @@ theorem steps_ww (fs : FS) (l : List Frag) :
     simp only [List.map_cons, FS.steps, List.foldl] at this ⊢
     simpa [FS.step] using this
 
-/-- while only log fragments are appended to a quiet, clean log, every crash image is the page
-    file as it was and the old log plus some prefix of the fragments -/
-theorem crash_during_ww (fs : FS) (hq : WalQuiet fs) (hpj : fs.pj = []) (l : List Frag) (n : Nat) (mode : CrashMode) :
-    ∃ j, j ≤ min n l.length ∧
-      (fs.steps ((l.map Step.ww).take n)).crashP mode = fs.pd ∧
-      (fs.steps ((l.map Step.ww).take n)).crashW mode = fs.wf ++ l.take j := by
+/-- every image of the log that a power loss may leave has the same committed list `cs`: the
+    durable prefix may be followed by unsynced complete records of an unfinished transaction -/
+structure WalStable (cs : List CTx) (fs : FS) : Prop where
+  ren : fs.ren = none
+  wdur : fs.wdur ≤ fs.wf.length
+  stable : ∀ n, fs.wdur ≤ n → committed (readAll (fs.wf.take n)) = .ok cs
+
+theorem WalStable.of_quiet {cs : List CTx} {fs : FS} (hq : WalQuiet fs) (hcom : committed (readAll fs.wf) = .ok cs) :
+    WalStable cs fs :=
+  ⟨hq.ren, by rw [hq.wdur]; exact Nat.le_refl _, fun n hn => by rw [List.take_of_length_le (by rw [← hq.wdur]; exact hn)]; exact hcom⟩
+
+theorem WalStable.com {cs : List CTx} {fs : FS} (h : WalStable cs fs) : committed (readAll fs.wf) = .ok cs := by
+  have := h.stable fs.wf.length h.wdur
+  rwa [List.take_length] at this
+
+theorem WalStable.crashW {cs : List CTx} {fs : FS} (h : WalStable cs fs) (mode : CrashMode) :
+    ∃ n, fs.wdur ≤ n ∧ fs.crashW mode = fs.wf.take n := by
+  cases mode with
+  | proc => exact ⟨fs.wf.length, h.wdur, by simp [FS.crashW]⟩
+  | power sel wk lose => exact ⟨fs.wdur + wk, Nat.le_add_right _ _, by simp [FS.crashW, h.ren]⟩
+
+/-- while only log fragments are appended, every crash image is the page file as it was and either
+    a (durable-or-later) prefix of the old log or the old log plus some prefix of the fragments -/
+theorem crash_during_ww (fs : FS) (hren : fs.ren = none) (hwd : fs.wdur ≤ fs.wf.length) (hpj : Inert fs.pj)
+    (l : List Frag) (n : Nat) (mode : CrashMode) :
+    (fs.steps ((l.map Step.ww).take n)).crashP mode = fs.pd ∧
+    ((∃ k, fs.wdur ≤ k ∧ (fs.steps ((l.map Step.ww).take n)).crashW mode = fs.wf.take k) ∨
+     (∃ j, j ≤ min n l.length ∧ (fs.steps ((l.map Step.ww).take n)).crashW mode = fs.wf ++ l.take j)) := by
   rw [← List.map_take]
   obtain ⟨hw, hd, hr, hpd, hpj'⟩ := steps_ww fs (l.take n)
   have hP : (fs.steps ((l.take n).map Step.ww)).crashP mode = fs.pd := by
-    have := crashP_isImg (fs.steps ((l.take n).map Step.ww)) mode
-    rw [hpj', hpj, hpd] at this
-    exact isImg_nil _ _ this
+    rw [crashP_inert _ (by rw [hpj']; exact hpj), hpd]
+  refine ⟨hP, ?_⟩
   cases mode with
   | proc =>
-    refine ⟨min n l.length, Nat.le_refl _, hP, ?_⟩
+    right
+    refine ⟨min n l.length, Nat.le_refl _, ?_⟩
     simp only [FS.crashW, hw]
     congr 1
     rw [List.take_eq_take_iff]
     try omega
   | power sel wk lose =>
-    refine ⟨min wk (min n l.length), Nat.min_le_right _ _, hP, ?_⟩
-    simp only [FS.crashW, hr, hq.ren, hw, hd, hq.wdur]
-    rw [List.take_append, List.take_of_length_le (by omega)]
-    congr 1
-    rw [List.take_take]
-    rw [List.take_eq_take_iff]
-    omega
-
-end Nervus.Crash
-
-namespace Nervus.Crash
+    simp only [FS.crashW, hr, hren, hw, hd]
+    by_cases hle : fs.wdur + wk ≤ fs.wf.length
+    · left
+      exact ⟨fs.wdur + wk, Nat.le_add_right _ _, by rw [List.take_append_of_le_length hle]⟩
+    · right
+      refine ⟨min (fs.wdur + wk - fs.wf.length) (min n l.length), Nat.min_le_right _ _, ?_⟩
+      rw [List.take_append, List.take_of_length_le (by omega)]
+      congr 1
+      rw [List.take_take, List.take_eq_take_iff]
+      omega
 
 /-! ### the appended records as I/O steps -/
 
@@ -237,20 +313,22 @@ namespace Nervus.Crash
 
 /-- an open handle between two operations: files and memory agree on the committed list `T` -/
 structure InvOpen (T : List Tx) (fs : FS) (m : Mem) (cs : List CTx) (c : Nat) : Prop where
-  pj : fs.pj = []
-  quiet : WalQuiet fs
-  com : committed (readAll fs.wf) = .ok cs
+  pj : Inert fs.pj
+  wal : WalStable cs fs
   log : LogOK T cs c
   pager : PagerOK (allNodes T) c fs.pd
+  store : StoreOK T cs fs.pd
   full : fs.pd.hdr.i2eLen = (allNodes T).length
   mpm : m.pm = fs.pd.hdr
   mlen : m.idLen = (allNodes T).length
   mstart : m.idStart = fs.pd.hdr.i2eStart
   mexts : m.exts = allNodes T
   mruns : m.runs = logRuns (scan cs).ckpt cs
-  msegs : m.segs = []
-  mroot : m.proot = 0
-  mtxid : (scan cs).ckpt < m.nextTxid
+  msegs : m.segs = (scan cs).segs.map (fun k => (k, segEdges fs.pd k))
+  mroot : m.proot = (scan cs).proot
+  mptop : m.ptop = (scan cs).ptop
+  mepoch : m.epoch = (scan cs).epoch
+  mtxid : (scan cs).maxTxid < m.nextTxid
   mwal : m.walOpen = true
 
 /-- the log has no torn tail, or the next append cuts it off (C17's repair) -/
@@ -258,18 +336,25 @@ def TailPre (cfg : Cfg) (fs : FS) (m : Mem) : Prop :=
   validLen fs.wf = fs.wf.length ∨ (cfg.tailTolerant && !m.tailChecked) = true
 
 theorem InvOpen.pv {T : List Tx} {fs : FS} {m : Mem} {cs : List CTx} {c : Nat} (h : InvOpen T fs m cs c) :
-    fs.pv = fs.pd := by simp [FS.pv, h.pj, applyEffs]
+    fs.pv = fs.pd := pv_inert fs h.pj
 
-theorem safeFS_of_rep {T : List Tx} {fs : FS} (hpj : fs.pj = []) (hq : WalQuiet fs) (h : Rep T fs.pd fs.wf) :
-    SafeFS [T] fs := by
+theorem InvOpen.rep {T : List Tx} {fs : FS} {m : Mem} {cs : List CTx} {c : Nat} (h : InvOpen T fs m cs c) :
+    Rep T fs.pd fs.wf := ⟨cs, c, h.wal.com, h.log, h.pager, h.store⟩
+
+/-- files whose every crash image has page file `pd` and a stable log represent `T` in every image -/
+theorem safeFS_of_stable {T : List Tx} {fs : FS} {cs : List CTx} {c : Nat} (hpj : Inert fs.pj) (hw : WalStable cs fs)
+    (hlog : LogOK T cs c) (hp : PagerOK (allNodes T) c fs.pd) (hs : StoreOK T cs fs.pd) : SafeFS [T] fs := by
   intro mode
-  refine ⟨T, by simp, ?_⟩
-  have hP : fs.crashP mode = fs.pd := by
-    have := crashP_isImg fs mode
-    rw [hpj] at this
-    exact isImg_nil _ _ this
-  rw [hP, hq.crashW]
-  exact h
+  obtain ⟨n, hn, hW⟩ := hw.crashW mode
+  refine ⟨T, by simp, cs, c, ?_, hlog, ?_, ?_⟩
+  · rw [hW]; exact hw.stable n hn
+  · rw [crashP_inert fs hpj]; exact hp
+  · rw [crashP_inert fs hpj]; exact hs
+
+theorem safeFS_of_rep {T : List Tx} {fs : FS} (hpj : Inert fs.pj) (hq : WalQuiet fs) (h : Rep T fs.pd fs.wf) :
+    SafeFS [T] fs := by
+  obtain ⟨cs, c, hcom, hlog, hp, hs⟩ := h
+  exact safeFS_of_stable hpj (WalStable.of_quiet hq hcom) hlog hp hs
 
 theorem safeFS_mono {A B : List (List Tx)} {fs : FS} (h : SafeFS A fs) (hab : ∀ T ∈ A, T ∈ B) : SafeFS B fs := by
   intro mode
@@ -281,32 +366,37 @@ theorem cut_state {cfg : Cfg} {T : List Tx} {fs : FS} {m : Mem} {cs : List CTx} 
     (h : InvOpen T fs m cs c) (ht : TailPre cfg fs m) :
     let fs0 := fs.steps (cutSteps cfg (m.ws fs.wf))
     SafeAlong (SafeFS [T]) fs (cutSteps cfg (m.ws fs.wf)) ∧
-    fs0.pj = [] ∧ fs0.pd = fs.pd ∧ WalQuiet fs0 ∧ validLen fs0.wf = fs0.wf.length ∧
-    readAll fs0.wf = readAll fs.wf := by
+    fs0.pj = fs.pj ∧ fs0.pd = fs.pd ∧ WalStable cs fs0 ∧ validLen fs0.wf = fs0.wf.length := by
   intro fs0
-  have hrep : Rep T fs.pd fs.wf := ⟨cs, c, h.com, h.log, h.pager⟩
-  have hsafe : SafeFS [T] fs := safeFS_of_rep h.pj h.quiet hrep
+  have hsafe : SafeFS [T] fs := safeFS_of_stable h.pj h.wal h.log h.pager h.store
   by_cases hcut : (cfg.tailTolerant && !(m.ws fs.wf).checked) = true ∧ (m.ws fs.wf).valid < (m.ws fs.wf).len
   · have hv : validLen fs.wf < fs.wf.length := hcut.2
     have hcs : cutSteps cfg (m.ws fs.wf) = [Step.wt (validLen fs.wf)] := by
       simp only [cutSteps, hcut, and_self, if_true]; rfl
     have hfs0 : fs0 = fs.step (.wt (validLen fs.wf)) := by simp [fs0, hcs, FS.steps]
     have hwf0 : fs0.wf = frames (readAll fs.wf) := by rw [hfs0]; simp [FS.step, take_validLen]
-    have hq0 : WalQuiet fs0 := by
-      constructor
-      · rw [hfs0]; simp only [FS.step, List.length_take, h.quiet.wdur]; exact Nat.min_comm _ _
-      · rw [hfs0]; simp [FS.step, h.quiet.ren]
-    have hpj0 : fs0.pj = [] := by rw [hfs0]; simp [FS.step, h.pj]
-    have hpd0 : fs0.pd = fs.pd := by rw [hfs0]; simp [FS.step]
+    have hwf0' : fs0.wf = fs.wf.take (validLen fs.wf) := by rw [hfs0]; rfl
+    have hwd0 : fs0.wdur = min fs.wdur (validLen fs.wf) := by rw [hfs0]; rfl
+    have hpj0 : fs0.pj = fs.pj := by rw [hfs0]; rfl
+    have hpd0 : fs0.pd = fs.pd := by rw [hfs0]; rfl
     have hread : readAll fs0.wf = readAll fs.wf := by rw [hwf0, readAll_frames]
-    refine ⟨?_, hpj0, hpd0, hq0, ?_, hread⟩
+    have hst0 : WalStable cs fs0 := by
+      refine ⟨by rw [hfs0]; simp [FS.step, h.wal.ren], ?_, ?_⟩
+      · rw [hwd0, hwf0', List.length_take]; omega
+      · intro n hn
+        rw [hwd0] at hn
+        rw [hwf0', List.take_take]
+        by_cases hk : fs.wdur ≤ min n (validLen fs.wf)
+        · exact h.wal.stable _ hk
+        · have hmin : min n (validLen fs.wf) = validLen fs.wf := by omega
+          rw [hmin, take_validLen, readAll_frames]
+          exact h.wal.com
+    refine ⟨?_, hpj0, hpd0, hst0, ?_⟩
     · rw [hcs]
       apply safeAlong_cons hsafe
       apply safeAlong_nil
       rw [← hfs0]
-      apply safeFS_of_rep hpj0 hq0
-      rw [hpd0]
-      exact ⟨cs, c, by rw [hread]; exact h.com, h.log, h.pager⟩
+      exact safeFS_of_stable (by rw [hpj0]; exact h.pj) hst0 h.log (by rw [hpd0]; exact h.pager) (by rw [hpd0]; exact h.store)
     · rw [hwf0]
       have := validLen_frames_append (readAll fs.wf) []
       simp [validLen] at this
@@ -320,7 +410,7 @@ theorem cut_state {cfg : Cfg} {T : List Tx} {fs : FS} {m : Mem} {cs : List CTx} 
         have := validLen_le fs.wf
         omega
     rw [hcs, hfs0]
-    exact ⟨safeAlong_nil hsafe, h.pj, rfl, h.quiet, hclean, rfl⟩
+    exact ⟨safeAlong_nil hsafe, rfl, rfl, h.wal, hclean⟩
 
 /-- **commit is crash-safe at every I/O step**: after any prefix of the steps every crash image
     (process death or power loss with any subset of unsynced operations) represents the old or
@@ -333,36 +423,43 @@ theorem commit_safe {cfg : Cfg} {T : List Tx} {fs : FS} {m : Mem} {cs : List CTx
     (∀ n, nAck < n → SafeFS [T ++ [tx]] (fs.steps (S.take n))) := by
   intro S nAck
   obtain ⟨hS, _⟩ := commitA_steps cfg m fs.pv fs.wf tx h.mwal
-  obtain ⟨sa0, hpj0, hpd0, hq0, hclean0, hread0⟩ := cut_state h ht
-  have hcom0 : committed (readAll (fs.steps (cutSteps cfg (m.ws fs.wf))).wf) = .ok cs := by rw [hread0]; exact h.com
+  obtain ⟨sa0, hpj0, hpd0, hst0, hclean0⟩ := cut_state h ht
   have hp0 : PagerOK (allNodes T) c (fs.steps (cutSteps cfg (m.ws fs.wf))).pd := by rw [hpd0]; exact h.pager
-  generalize hfs0 : fs.steps (cutSteps cfg (m.ws fs.wf)) = fs0 at sa0 hpj0 hpd0 hq0 hclean0 hread0 hcom0 hp0
+  have hs0 : StoreOK T cs (fs.steps (cutSteps cfg (m.ws fs.wf))).pd := by rw [hpd0]; exact h.store
+  generalize hfs0 : fs.steps (cutSteps cfg (m.ws fs.wf)) = fs0 at sa0 hpj0 hpd0 hst0 hclean0 hp0 hs0
+  have hcom0 := hst0.com
   have hrecs : txRecs m.nextTxid m.idLen tx = txRecs m.nextTxid (allNodes T).length tx := by rw [h.mlen]
+  have hin0 : Inert fs0.pj := by rw [hpj0]; exact h.pj
   -- (1) while the records are written
   have sa1 : SafeAlong (SafeFS [T, T ++ [tx]]) fs0 ((frames (txRecs m.nextTxid m.idLen tx)).map Step.ww) := by
     intro n mode
-    obtain ⟨j, _, hP, hW⟩ := crash_during_ww fs0 hq0 hpj0 (frames (txRecs m.nextTxid m.idLen tx)) n mode
-    have hr := rep_log_prefix hclean0 hcom0 h.log hp0 m.nextTxid tx h.mtxid hf j
-    rw [← hrecs] at hr
-    rw [hP, hW]
-    by_cases hj : j < 3 * (txRecs m.nextTxid m.idLen tx).length
-    · exact ⟨T, by simp, hr.1 hj⟩
-    · exact ⟨T ++ [tx], by simp, hr.2 (by omega)⟩
+    obtain ⟨hP, hW⟩ := crash_during_ww fs0 hst0.ren hst0.wdur hin0 (frames (txRecs m.nextTxid m.idLen tx)) n mode
+    rw [hP]
+    rcases hW with ⟨k, hk, hW⟩ | ⟨j, _, hW⟩
+    · rw [hW]
+      exact ⟨T, by simp, cs, c, hst0.stable k hk, h.log, hp0, hs0⟩
+    · have hr := rep_log_prefix hclean0 hcom0 h.log hp0 hs0 m.nextTxid tx h.mtxid hf j
+      rw [← hrecs] at hr
+      rw [hW]
+      by_cases hj : j < 3 * (txRecs m.nextTxid m.idLen tx).length
+      · exact ⟨T, by simp, hr.1 hj⟩
+      · exact ⟨T ++ [tx], by simp, hr.2 (by omega)⟩
   -- (2) all records written, then synced
   obtain ⟨hw1, hd1, hr1, hpd1, hpj1⟩ := steps_ww fs0 (frames (txRecs m.nextTxid m.idLen tx))
   generalize hfs1 : fs0.steps ((frames (txRecs m.nextTxid m.idLen tx)).map Step.ww) = fs1 at hw1 hd1 hr1 hpd1 hpj1
   have hrepNew : Rep (T ++ [tx]) fs0.pd (fs0.wf ++ frames (txRecs m.nextTxid m.idLen tx)) := by
-    have hr := (rep_log_prefix hclean0 hcom0 h.log hp0 m.nextTxid tx h.mtxid hf
+    have hr := (rep_log_prefix hclean0 hcom0 h.log hp0 hs0 m.nextTxid tx h.mtxid hf
       (3 * (txRecs m.nextTxid m.idLen tx).length)).2
     rw [← hrecs] at hr
     have := hr (Nat.le_refl _)
     rwa [List.take_of_length_le (by rw [frames_length]; omega)] at this
   have hq2 : WalQuiet (fs1.step .ws) := ⟨by simp [FS.step], by simp [FS.step]⟩
-  have hpj2 : (fs1.step .ws).pj = [] := by simp [FS.step, hpj1, hpj0]
+  have hpj2 : (fs1.step .ws).pj = fs.pj := by simp [FS.step, hpj1, hpj0]
   have hpd2 : (fs1.step .ws).pd = fs.pd := by simp [FS.step, hpd1, hpd0]
   have hwf2 : (fs1.step .ws).wf = fs0.wf ++ frames (txRecs m.nextTxid m.idLen tx) := by simp [FS.step, hw1]
   -- (3) node phase on the synced log
-  obtain ⟨cs', c', hcom', hlog', hpager'⟩ := hrepNew
+  obtain ⟨cs', c', hcom', hlog', hpager', hstore'⟩ := hrepNew
+  rw [hpd0] at hstore'
   have hcN : c' ≤ (allNodes T).length := by
     have h1 := hpager'.lo
     rw [hpd0, h.full] at h1
@@ -370,7 +467,7 @@ theorem commit_safe {cfg : Cfg} {T : List Tx} {fs : FS} {m : Mem} {cs : List CTx
   have hB : AllImgs (fs1.step .ws) (NG (allNodes (T ++ [tx])) c' fs.pd (allNodes T).length) := by
     intro p' himg
     rw [hpj2, hpd2] at himg
-    rw [isImg_nil _ _ himg]
+    rw [isImg_inert _ h.pj _ _ himg]
     refine ⟨Frame.refl _, h.pager.start, ?_, ?_, ?_⟩
     · rw [h.full]; exact hcN
     · rw [h.full]; exact Nat.le_refl _
@@ -383,7 +480,7 @@ theorem commit_safe {cfg : Cfg} {T : List Tx} {fs : FS} {m : Mem} {cs : List CTx
   have hcomF : committed (readAll (fs1.step .ws).wf) = .ok cs' := by rw [hwf2]; exact hcom'
   have hdropF : (allNodes (T ++ [tx])).drop (allNodes T).length = tx.nodes ++ [] := by
     rw [allNodes_snoc]; simp
-  have hSy : Synced (fs1.step .ws) (m.ps fs.pv).pm := ⟨hpj2, by rw [hpd2]; exact h.mpm.symm⟩
+  have hSy : SyncedI (fs1.step .ws) (m.ps fs.pv).pm := ⟨by rw [hpj2]; exact h.pj, by rw [hpd2]; exact h.mpm.symm⟩
   have hl1 : (m.ps fs.pv).pm.i2eLen = (allNodes T).length := by
     show m.pm.i2eLen = _
     rw [h.mpm, h.full]
@@ -398,7 +495,7 @@ theorem commit_safe {cfg : Cfg} {T : List Tx} {fs : FS} {m : Mem} {cs : List CTx
   have hl4 : (allNodes T).length ≤ (allNodes (T ++ [tx])).length := by rw [allNodes_snoc]; simp
   have sa3 := node_phase (cfg := cfg) (T := T ++ [tx]) (cs := cs') (c := c') (k := (allNodes T).length)
     h.pager.booted hsync (fs1.step .ws) (m.ps fs.pv) { start := m.idStart, len := m.idLen } tx.nodes []
-    hq2 hcomF hlog' hdropF hB hSy hpm hl1 h.mlen hl2 hl3 hcN hl4
+    hq2 hcomF hlog' hstore' hdropF hB hSy hpm hl1 h.mlen hl2 hl3 hcN hl4
   -- assemble
   have hmono : ∀ g, SafeFS [T ++ [tx]] g → SafeFS [T, T ++ [tx]] g := fun g hg => safeFS_mono hg (by simp)
   have hmono0 : ∀ g, SafeFS [T] g → SafeFS [T, T ++ [tx]] g := fun g hg => safeFS_mono hg (by simp)
